@@ -90,6 +90,22 @@ def path_return_value(ctx, edges):
     return val
 
 
+def path_local_value(ctx, edges, local):
+    """Expression last assigned to `local` (whole-local assignment) along the path."""
+    blocks = [0] + [e.dst for e in edges]
+    val = None
+    for b in blocks:
+        blk = ctx.cfg.block(b)
+        for i, s in enumerate(blk["stmts"]):
+            if s["k"] == "assign" and s["dst"]["l"] == local and not s["dst"].get("p"):
+                val = ctx.prov.rvalue(s["rv"], (b, i))
+        t = blk["term"]
+        if t["k"] == "call" and t["dst"]["l"] == local and not t["dst"].get("p"):
+            from .prov import call_name
+            val = ("call", call_name(t), tuple(ctx.args(b)), b)
+    return val
+
+
 def decision_table(ctx):
     """[(frozenset(atoms), result_string)] over all acyclic paths."""
     rows = []
